@@ -326,6 +326,78 @@ def stropDecomposition (zero : α) (vs : List (α × α)) : Option (List (List (
     if insts.isEmpty then none
     else some (insts.map fun s => s.rectangles.map (coordRect (fun j => xs.getD j zero) (fun i => ys.getD i zero)))
 
+/-! ### the polygon as a boundary (specification side: executed by the driver as a hypothesis monitor)
+
+`strop_decomposition` never sees the cell set a polygon was drawn around — only the vertex list.  The following
+definitions say, executably, that a vertex list *is* the boundary of the 1-cells of a grid `S` drawn on the
+pipeline's own coordinate lists: every edge is axis-parallel and, for every grid line `x = xs[k]` and every row `i`,
+the signed number of vertical edges on that line that cross the row (upwards `+1`, downwards `-1`) is
+`σ·(S[i][k-1] − S[i][k])` — a piece of the line is walked exactly where it separates a 1-cell from a 0-cell, upwards
+when the 1-cell is on its left (`σ = 1`: counter-clockwise in `y`-up coordinates; `σ = −1`: clockwise).  (For a closed
+axis-parallel loop the condition on the vertical pieces forces the one on the horizontal pieces.) -/
+
+/-- `sum(f i for i in range(n))` over `Int`. -/
+def sumInt : Nat → (Nat → Int) → Int
+  | 0, _ => 0
+  | n+1, f => sumInt n f + f n
+
+/-- `sum(f i for i in range(n))` over the scalars, from `zero`. -/
+def sumSc (zero : α) : Nat → (Nat → α) → α
+  | 0, _ => zero
+  | n+1, f => sumSc zero n f + f n
+
+/-- the cyclic edge `vertices[i] → vertices[(i+1) % n]` (the pair `p1, p2` of `is_point_inside_polygon`). -/
+def edgeAt (vs : List (α × α)) (i : Nat) : Option ((α × α) × (α × α)) :=
+  match vs[i]?, vs[(i + 1) % vs.length]? with
+  | some p1, some p2 => some (p1, p2)
+  | _, _ => none
+
+/-- all cyclic edges, in order. -/
+def cycEdges (vs : List (α × α)) : List ((α × α) × (α × α)) := (List.range vs.length).filterMap (edgeAt vs)
+
+/-- every edge is horizontal or vertical. -/
+def rectilinear (vs : List (α × α)) : Bool :=
+  (cycEdges vs).all fun e => decide (e.1.1 = e.2.1) || decide (e.1.2 = e.2.2)
+
+/-- the half-open crossing test of `is_point_inside_polygon`: `p1.y <= y < p2.y or p2.y <= y < p1.y`. -/
+def spansY (e : (α × α) × (α × α)) (y : α) : Bool :=
+  decide ((e.1.2 ≤ y ∧ y < e.2.2) ∨ (e.2.2 ≤ y ∧ y < e.1.2))
+
+/-- `+1` for a vertical edge on the line `x` walking upwards across the ordinate `y`, `-1` downwards, else `0`. -/
+def edgeSign (x y : α) (e : (α × α) × (α × α)) : Int :=
+  if e.1.1 = x ∧ e.2.1 = x then
+    (if e.1.2 ≤ y ∧ y < e.2.2 then 1 else if e.2.2 ≤ y ∧ y < e.1.2 then -1 else 0)
+  else 0
+
+/-- signed number of vertical edges of the loop on the line `x` crossing the ordinate `y`. -/
+def winding (x y : α) (vs : List (α × α)) : Int :=
+  sumInt vs.length fun i => match edgeAt vs i with | some e => edgeSign x y e | none => 0
+
+def b2i (b : Bool) : Int := if b then 1 else 0
+
+/-- `S` has `nr` rows of `nc` cells. -/
+def gridDims (S : Grid) (nr nc : Nat) : Bool := S.length == nr && S.all (fun r => r.length == nc)
+
+/-- the vertical pieces of the loop are the vertical boundary pieces of the 1-cells of `S` on the coordinate lists
+`xs` (ascending) / `ys` (descending), oriented by `σ`. -/
+def isBoundaryOf (zero : α) (σ : Int) (S : Grid) (xs ys : List α) (vs : List (α × α)) : Bool :=
+  (List.range (ys.length - 1)).all fun i =>
+    (List.range xs.length).all fun k =>
+      winding (xs.getD k zero) ((ys.getD (i + 1) zero + ys.getD i zero) / two) vs
+        == σ * ((if k = 0 then 0 else b2i (cell S i (k - 1))) - b2i (cell S i k))
+
+/-- the vertex list is an axis-parallel loop around the 1-cells of `S`, on the coordinate lists the pipeline itself
+extracts from it. -/
+def tracesGrid (zero : α) (σ : Int) (S : Grid) (vs : List (α × α)) : Bool :=
+  let (xs, ys, _) := gridOfVertices vs
+  rectilinear vs && gridDims S (ys.length - 1) (xs.length - 1) && isBoundaryOf zero σ S xs ys vs
+
+/-- twice the signed (shoelace) area: `Σ x_i·y_{i+1} − x_{i+1}·y_i` over the cyclic edges. -/
+def shoelace2 (zero : α) (vs : List (α × α)) : α :=
+  sumSc zero vs.length fun i => match edgeAt vs i with
+    | some e => e.1.1 * e.2.2 - e.2.1 * e.1.2
+    | none => zero
+
 end Coords
 
 end FV.Strop
